@@ -193,13 +193,19 @@ theorem build_equivariant {sqrt : K → K} (hs : SqrtHom sqrt) {X : Ext K} (hX :
       ∧ (∃ t, out .target = some t) :=
   pipeline_equivariant hs hX m cfg.ssl (build cfg) (pipeline_degrees_ok cfg hv) c hc x
 
-/-- non-vacuity of the hypotheses: over `ℚ`-like fields the zero "square root" is homogeneous, and
-externals that ignore their input are homogeneous on the empty tensor … a less degenerate instance: the
-identity operators are homogeneous -/
-example : ExtHom (K := K) { lin := fun _ _ v => v, mask := fun _ _ _ _ _ _ => [], split := fun _ _ _ _ => [],
-                            eps := 0, kOf := fun _ => 1, padCoilsTo := 0, espirit := fun v => v } :=
-  ⟨fun _ _ _ _ _ => rfl⟩
-example : SqrtHom (K := K) (fun _ => 0) := fun _ _ _ => by simp
+/-- non-vacuity of the hypotheses: identity externals are homogeneous, a (degenerate) square root
+exists in every field, and hence the default pipeline runs to completion on *every* raw sample — which
+is also the hypothesis `run … = .ok out` of the self-consistency theorems below.  (Over ℝ the real
+square root satisfies `SqrtHom`; the driver executes the same `run` over ℚ with the exact root.) -/
+example : ExtHom (idExt (K := K)) := idExt_hom
+example : SqrtHom (K := K) (fun _ => 0) := zeroSqrt_hom
+example (m : Meta) (x : Val K) : ∃ out, run (fieldOps (fun _ => (0 : K))) idExt m (build {}) x = .ok out := by
+  obtain ⟨out, _, h, _⟩ := build_equivariant zeroSqrt_hom idExt_hom m {} (by decide) 1 one_pos x
+  exact ⟨out, h⟩
+example (m : Meta) (x : Val K) :
+    ∃ out, run (fieldOps (fun _ => (0 : K))) idExt m (build { ssl := true, recon := .senseMod }) x = .ok out := by
+  obtain ⟨out, _, h, _⟩ := build_equivariant zeroSqrt_hom idExt_hom m { ssl := true, recon := .senseMod } (by decide) 1 one_pos x
+  exact ⟨out, h⟩
 
 /-! ## self-consistency of the outputs -/
 
